@@ -625,7 +625,7 @@ class SBytes:
                 for nib in (z3.LShR(x, 4), x & 15):
                     t = z3.ZeroExt(_cur.W - 8, nib)
                     out.append(SInt(z3.If(t < 10, t + 48, t + 87), 48, 102))
-        return SStr(out)
+        return SHexStr(out, self)
 
     def startswith(self, p):
         if len(p) > len(self):
@@ -866,6 +866,40 @@ class SStr:
 
     def __repr__(self):
         return "<SStr len=%d>" % len(self.c)
+
+
+class SHexStr(SStr):
+    """lower-case hex rendering of an SBytes that remembers its source bytes: int(h, 16), bytes.fromhex(h) and even
+    slices go back to the bytes instead of doing arithmetic on symbolic characters"""
+
+    def __init__(self, cps, src):
+        SStr.__init__(self, cps)
+        self.src = src
+
+    def __getitem__(self, i):
+        if isinstance(i, slice) and i.step is None:
+            a, b, _ = i.indices(len(self.c))
+            if a % 2 == 0 and b % 2 == 0 and b >= a:
+                return SHexStr(self.c[a:b], SBytes._norm(self.src.b[a // 2:b // 2]))
+        return SStr.__getitem__(self, i)
+
+    def __add__(self, o):
+        if isinstance(o, SHexStr):
+            return SHexStr(self.c + o.c, SBytes._norm(self.src.b + o.src.b))
+        if isinstance(o, str) and len(o) % 2 == 0 and all(ch in '0123456789abcdef' for ch in o):
+            return SHexStr(self.c + [ord(ch) for ch in o], SBytes._norm(self.src.b + list(bytes.fromhex(o))))
+        return SStr.__add__(self, o)
+
+    def __radd__(self, o):
+        if isinstance(o, str) and len(o) % 2 == 0 and all(ch in '0123456789abcdef' for ch in o):
+            return SHexStr([ord(ch) for ch in o] + self.c, SBytes._norm(list(bytes.fromhex(o)) + self.src.b))
+        return SStr.__radd__(self, o)
+
+    def lower(self):
+        return self
+
+    def lower_if_concrete(self):
+        return SStr.lower_if_concrete(self) if self.is_concrete() else self
 
 
 class SymTable:
